@@ -146,6 +146,7 @@ type Loop struct {
 	MapRange bool
 	savedHdr map[ssa.Value]Val
 	stHdrEnd *State
+	frameHeaps []string
 }
 
 type Cand struct {
@@ -204,6 +205,8 @@ type Exec struct {
 	onAccess  func(e *Exec, p *Ptr, write bool)
 	allocOn   bool
 	ifaceCon  types.Type // non-nil: e.con is the contract of this interface's method
+	allows    []frameAllow
+	allowsDone bool
 	inSize    *Term // total length of byte/string inputs of the unit function
 }
 
@@ -1169,6 +1172,7 @@ func (e *Exec) enterLoop(lp *Loop) {
 		e.heap0(k, heaps[k])
 		e.st.heaps[k] = e.vc.Fresh(k, heaps[k])
 	}
+	e.assumeLoopFrame(lp, hn)
 	nac := e.vc.Fresh("ac", SInt)
 	e.vc.Assume(True, IntLe(e.st.ac, nac))
 	e.st.ac = nac
@@ -1341,6 +1345,7 @@ func (e *Exec) closeLoop(lp *Loop) {
 	e.execBlockNoTerm(h)
 	e.silent = wasSilent
 	e.checkInvariants(lp, "preserved")
+	e.checkLoopFrame(lp)
 	e.checkVariants(lp)
 	e.restoreRegs(saved)
 	e.g, e.st = saveG, saveSt
@@ -1348,6 +1353,39 @@ func (e *Exec) closeLoop(lp *Loop) {
 
 // fieldNonNil: the location p ends in a struct field declared `nonnil` in a //@ type block
 // (a representation invariant that is assumed, and listed as such).
+func (e *Exec) fieldNullable(p *Ptr) bool {
+	if p.Kind == PMulti {
+		for _, a := range p.Alts {
+			if e.fieldNullable(a.P) {
+				return true
+			}
+		}
+		return false
+	}
+	if len(p.Path) == 0 {
+		return false
+	}
+	last := p.Path[len(p.Path)-1]
+	if last.Idx != nil {
+		return false
+	}
+	n, ok := types.Unalias(last.ContT).(*types.Named)
+	if !ok {
+		return false
+	}
+	tn := n.Obj().Name()
+	if n.Obj().Pkg() != nil {
+		tn = shortName(n.Obj().Pkg().Path()) + "." + tn
+	}
+	ts := e.P.TypeSpecs[tn]
+	if ts == nil {
+		return false
+	}
+	st := n.Underlying().(*types.Struct)
+	_, ok = ts.Fields[st.Field(last.Field).Name()]["nullable"]
+	return ok
+}
+
 func (e *Exec) fieldNonNil(p *Ptr) bool {
 	if p.Kind == PMulti {
 		for _, a := range p.Alts {
